@@ -261,7 +261,10 @@ CFrame(s, sc, e) ==
                     ELSE {k \in (i + 1)..Len(sl) : (~IsMarked(k)) /\ ExpStatus(M(sc, c, sl[k])) = e.st}
             j == IF cand = {} THEN 0 ELSE MinOf(cand)
             ordp == IF Fam(sc) = "C10" THEN "C10" ELSE "C01"
-            wfp == IF Fam(sc) \in {"C01", "C06"} THEN "C01" ELSE IF Fam(sc) \in {"C13", "C15"} THEN Fam(sc) ELSE "C04"
+            \* (a malformed frame where the library's own response to a dropped request is due is C06's: "exactly one
+            \*  final response"; elsewhere in the writer-chain families it is interleaving, C01's)
+            wfp == IF Fam(sc) = "C06" /\ i <= Len(sl) /\ ~IsMarked(i) THEN "C06"
+                   ELSE IF Fam(sc) \in {"C01", "C06"} THEN "C01" ELSE IF Fam(sc) \in {"C13", "C15"} THEN Fam(sc) ELSE "C04"
         IN
         IF ~e.wf
         THEN [ s |-> [s EXCEPT !.fcount[c + 1] = i, !.fbad[c + 1] = TRUE], v |-> V(FALSE, wfp, "FrameMalformed") ]
